@@ -15,9 +15,9 @@ def jobs(tier):
         add('free%d' % n, [-1, 0, n], 'every valid JSON text of length %d x all 14 paths' % n, nproc=4 if n < 5 else 16)
     for arr in (0, 1):
         for esc in ((0, 1) if not arr else (0,)):
-            add('tmpl.a%d.e%d' % (arr, esc), [-1, 2, arr, esc], ('[V,W,X]' if arr else '{"a":V,"b":W,"a":X}' + (' with key a spelled \\u0061' if esc else '')) + ' with 2-byte symbolic values x all 14 paths', nproc=8)
-    fills = [31, 33, 64] if q else list(range(28, 37)) + list(range(60, 69))
-    for sk in range(5):
+            add('tmpl.a%d.e%d' % (arr, esc), [-1, 2, arr, esc, 1 if q else 0], ('[V,W,X]' if arr else '{"a":V,"b":W,"a":X}' + (' with key a spelled \\u0061' if esc else '')) + ' with %s symbolic values x all 14 paths' % ('1-byte' if q else '2-byte'), nproc=8)
+    fills = [31, 64] if q else list(range(28, 37)) + list(range(60, 69))
+    for sk in ((1, 2, 3) if q else range(5)):
         for kind in (0, 1):
             for f in fills:
                 add('fill.s%d.k%d.f%d' % (sk, kind, f), [-1, 1, sk, f, kind, 3 if q else 4],
